@@ -93,6 +93,25 @@ def gen_cases(ctx, n, mutate_p=0.5, model_filter=None, type_filter=None, post=No
         yield c
 
 
+def inline_aliases(doc, env=None):
+    """the document with every alias replaced by a copy of the anchored node (anchors dropped)"""
+    env = {} if env is None else env
+
+    def rec(d):
+        if d[0] == '&':
+            x = rec(d[2])
+            env[d[1]] = x
+            return x
+        if d[0] == '*':
+            return env[d[1]]
+        if d[0] == 'q':
+            return ('q', [rec(x) for x in d[1]], d[2])
+        if d[0] == 'm':
+            return ('m', [(rec(k), rec(v)) for k, v in d[1]], d[2])
+        return d
+    return rec(doc)
+
+
 def alias_across_types(ctx, n):
     """yield cases in which one scalar is anchored at a position of one declared type and used again,
     through an alias, at a position of another (a key reused as a value, a str attribute reused at a
@@ -120,6 +139,9 @@ def alias_across_types(ctx, n):
                         params=[dict(name='v', type=('int',), default=0)], extra=False, abstract=None,
                         define_init=True)
             opts['all_params'] = opts['params']
+            if rng.random() < 0.5:
+                # a hook that fills in the attribute in place: must not show through the other use
+                opts['savorize'] = [('setmissing', 'v', 1)]
             second = rng.choice([('any',), CM.t_opt(('map', 'dict', ('str',), ('int',))),
                                  ('map', 'dict', ('str',), ('cls', 'Opts')), ('seq', 'list', ('int',))])
             hp = [dict(name='o', type=rng.choice([('cls', 'Opts'), ('seq', 'list', ('str',))])),
@@ -190,6 +212,12 @@ def untyped_regions(ctx, n):
         if body[0] == 's' or rng.random() < 0.5:
             body = ('m', [(S(rng.choice(['a', 'b', 'red'])), G.gen_any(rng, 2)),
                           (S(rng.choice(['c', 'true', '12'])), G.gen_any(rng, 1))], None)
+        if body[0] == 'm' and rng.random() < 0.25:
+            # a merge key inside the untyped region (that is where PyYAML reads them)
+            merged = rng.choice([('m', [(S('mk'), G.gen_any(rng, 1))], None),
+                                 ('q', [('m', [(S('mk'), S('1'))], None), ('m', [(S('a'), S('2'))], None)], None),
+                                 S('not-a-mapping')])
+            body = ('m', [(('s', '<<', False, None), merged)] + list(body[1]), body[2])
         for _k in range(rng.randint(1, 3)):
             ps = G.all_paths(body)
             keys = [p for p in ps if p and p[-1] == 0 and len(p) >= 2]
